@@ -119,7 +119,7 @@ Lemma CA_step x0 h e :
   CA x0 h (final cstep (c_init x0) h) -> CA x0 (h ++ [e]) (fst (cstep (final cstep (c_init x0) h) e)).
 Proof.
   set (s := final cstep (c_init x0) h). intro I.
-  destruct e as [w|w ft|f|w|w|w].
+  destruct e as [w|w ft|f|w|w|w|w].
   - simpl. now apply (CA_req x0 h s (CReq w) w).
   - simpl. now apply (CA_req x0 h s (CReqAuth w ft) w).
   - rewrite cstep_frame. destruct (c_frame_answer f) as [[key d]|] eqn:Ea; simpl;
@@ -139,6 +139,7 @@ Proof.
     intros w' d' H. now apply (aget_adel_some _ nat_eqb_spec) in H.
   - simpl. destruct (wget w (c_wait s)) as [d|] eqn:E; simpl; apply (CA_weaken x0 h s); simpl; auto.
     intros w' d' H. now apply (aget_adel_some _ nat_eqb_spec) in H.
+  - simpl. apply (CA_weaken x0 h s); simpl; auto.
 Qed.
 
 Lemma CA_reach x0 h : CA x0 h (final cstep (c_init x0) h).
@@ -156,7 +157,7 @@ Lemma comp_deliver_matches x0 pre e w p (err : bool) :
     c_key_at (final cstep (c_init x0) h1) r = Some key /\ c_frame_answer f = Some (key, (p, err)).
 Proof.
   destruct (CA_reach x0 pre) as [Q W]. set (s := final cstep (c_init x0) pre) in *.
-  destruct e as [w'|w' ft|f|w'|w'|w'].
+  destruct e as [w'|w' ft|f|w'|w'|w'|w'].
   - simpl. intros [].
   - simpl. intros [].
   - destruct (frame_outputs s f) as [->|(tag & _ & ->)]; [intros []|].
@@ -169,13 +170,14 @@ Proof.
     exists key, h1, r, h2, f, h3. rewrite <- app_assoc in Ep. auto.
   - simpl. destruct (wget w' (c_wait s)); simpl; [|intros []]. intros [H|[]]. destruct err; discriminate.
   - simpl. destruct (wget w' (c_wait s)); simpl; [|intros []]. intros [H|[]]. destruct err; discriminate.
+  - simpl. intros [H|[]]. destruct err; discriminate.
 Qed.
 
 (* --------------------------------------------------------------------------
    C4  transaction ids are never reused                                        *)
 Lemma c_next_step s e : (c_next s <= c_next (fst (cstep s e)))%N.
 Proof.
-  destruct e as [w|w ft|f|w|w|w]; try (simpl; lia).
+  destruct e as [w|w ft|f|w|w|w|w]; try (simpl; lia).
   - rewrite cstep_frame. destruct (c_frame_answer f) as [[key d]|]; simpl; [|lia].
     unfold c_pop. destruct (qget key (c_q s)); simpl; lia.
   - simpl. destruct (wget w (c_wait s)) as [[[p em]|]|]; simpl; lia.
@@ -270,7 +272,7 @@ Definition CC (h : list cev) (o : list cout) (s : cst) : Prop :=
 Lemma CC_step h o s e : CC h o s -> CC (h ++ [e]) (o ++ snd (cstep s e)) (fst (cstep s e)).
 Proof.
   intros H p. specialize (H p). rewrite c_out_tags_app, c_frame_tags_app, !cntN_app.
-  destruct e as [w|w ft|f|w|w|w].
+  destruct e as [w|w ft|f|w|w|w|w].
   - simpl. pose proof (c_held_aset_none p w (c_wait s)). unfold cntN in *; simpl. lia.
   - simpl. pose proof (c_held_aset_none p w (c_wait s)). unfold cntN in *; simpl. lia.
   - rewrite cstep_frame. destruct (c_frame_answer f) as [[key [q em]]|] eqn:Ea.
@@ -293,6 +295,7 @@ Proof.
     pose proof (c_held_adel_le p w (c_wait s)). unfold cntN in *; simpl. lia.
   - simpl. destruct (wget w (c_wait s)) as [d|] eqn:E; simpl; [|unfold cntN in *; simpl; lia].
     pose proof (c_held_adel_le p w (c_wait s)). unfold cntN in *; simpl. lia.
+  - simpl. unfold cntN in *; simpl. lia.
 Qed.
 
 Lemma comp_deliver_once x0 h p :
@@ -310,12 +313,12 @@ Definition c_pending (w : nat) (o : list cout) : Prop := forall x, In x o -> ~ c
 Definition c_mentionsb (w : nat) (x : cout) : bool :=
   match x with
   | CDeliver w' _ | CProtoErr w' _ | CTimeoutErr w' | CCancelled w' => Nat.eqb w' w
-  | CListen _ => false
+  | CListen _ | CSendErr _ => false
   end.
 Definition c_outcomes (w : nat) (o : list cout) : nat := length (filter (c_mentionsb w) o).
 
 Lemma c_mentionsb_spec w x : c_mentionsb w x = true <-> c_mentions w x.
-Proof. destruct x; simpl; try apply Nat.eqb_eq. split; [discriminate|intros []]. Qed.
+Proof. destruct x; simpl; try apply Nat.eqb_eq; (split; [discriminate|intros []]). Qed.
 
 Lemma c_pending_outcomes w o : c_pending w o -> c_outcomes w o = 0.
 Proof.
@@ -413,10 +416,22 @@ Proof.
   - intros w1 x Hx M. apply in_or_app; left. eapply D; eauto.
 Qed.
 
+Lemma CI_silent_out h o s x : (forall w, ~ c_mentions w x) -> CI h o s -> CI h (o ++ [x]) s.
+Proof.
+  intros Nx [A1 A2 D E]. split.
+  - intros w d H. destruct (A1 _ _ H) as [R P]. split; [assumption|].
+    intros y Hy. apply in_app_or in Hy as [Hy|[<-|[]]]; [now apply P|apply Nx].
+  - intros w R P. apply (A2 w R). intros y Hy. apply P. apply in_or_app; now left.
+  - intros w y Hy M. apply in_app_or in Hy as [Hy|[<-|[]]]; [now apply (D w y)|]. exfalso. now apply (Nx w).
+  - intros w. rewrite c_outcomes_app. unfold c_outcomes at 2. simpl.
+    destruct (c_mentionsb w x) eqn:Eb; simpl; [|specialize (E w); lia].
+    apply c_mentionsb_spec in Eb. exfalso. now apply (Nx w).
+Qed.
+
 Lemma CI_step h o s e :
   NoDup (c_req_waiters (h ++ [e])) -> CI h o s -> CI (h ++ [e]) (o ++ snd (cstep s e)) (fst (cstep s e)).
 Proof.
-  intros F I. destruct e as [w|w ft|f|w|w|w].
+  intros F I. destruct e as [w|w ft|f|w|w|w|w].
   - simpl. rewrite app_nil_r. now apply (CI_req h o s (CReq w) w).
   - simpl. rewrite app_nil_r. now apply (CI_req h o s (CReqAuth w ft) w).
   - rewrite cstep_frame. destruct (c_frame_answer f) as [[key d]|] eqn:Ea; simpl.
@@ -443,6 +458,8 @@ Proof.
   - simpl. destruct (wget w (c_wait s)) as [d|] eqn:E; simpl;
       try (rewrite app_nil_r; apply (CI_silent h o s); auto; tauto).
     eapply CI_finish; eauto; try reflexivity; try (intros w1 N M; simpl in M; congruence).
+  - simpl. apply (CI_silent h _ s); auto; [|simpl; tauto].
+    apply CI_silent_out; [intros w' []|assumption].
 Qed.
 
 Lemma CI_reach x0 h : NoDup (c_req_waiters h) ->
